@@ -119,8 +119,17 @@ func parseSemver(value string) (major, minor, patch int, err error) {
 				"(no prereleases or build metadata).",
 			value)
 	}
-	major, _ = strconv.Atoi(m[1])
-	minor, _ = strconv.Atoi(m[2])
-	patch, _ = strconv.Atoi(m[3])
-	return major, minor, patch, nil
+	// The regex bounds the shape, not the magnitude: a component too large
+	// for int makes Atoi clamp and report a range error. Dropping that error
+	// would make every oversized component compare equal.
+	var parts [3]int
+	for i := range parts {
+		n, convErr := strconv.Atoi(m[i+1])
+		if convErr != nil {
+			//lint:ignore ST1005 message text mirrors the malformed-version wording above
+			return 0, 0, 0, fmt.Errorf("Invalid protocol version %q: component %q is out of range.", value, m[i+1])
+		}
+		parts[i] = n
+	}
+	return parts[0], parts[1], parts[2], nil
 }
